@@ -278,6 +278,16 @@ def cases(draw, max_events=40):
     ev = []
     for i in range(n):
         ev.append(["id%d" % i] + [draw(st.sampled_from(pools[c])) for c in range(1, 6)])
+    # catalogs usually arrive in time order; a filter must not care (nor about any other order of the rows)
+    sortby = draw(st.sampled_from([None, None, "time", "time", "time_desc", "magnitude", "all_columns"]))
+    if sortby == "time":
+        ev.sort(key=lambda e: e[1])
+    elif sortby == "time_desc":
+        ev.sort(key=lambda e: -e[1])
+    elif sortby == "magnitude":
+        ev.sort(key=lambda e: e[5])
+    elif sortby == "all_columns":
+        ev.sort(key=lambda e: tuple(e[1:]))
     ns = draw(st.integers(1, 4))
     stmts = []
     for _ in range(ns):
